@@ -269,6 +269,7 @@ def find_token(request, token_type, service, **kwargs):
         else:
             del request[token_type]
             # Required under certain circumstances :-) not under other
+            request.c_param = dict(request.c_param)
             request.c_param[token_type] = SINGLE_OPTIONAL_STRING
             return _token
 
@@ -296,6 +297,7 @@ def find_token_info(request: Union[Message, dict], token_type: str, service, **k
         if _token:
             del request[token_type]
             # Required under certain circumstances :-) not under other
+            request.c_param = dict(request.c_param)
             request.c_param[token_type] = SINGLE_OPTIONAL_STRING
             return {token_type: _token, "token_type": DEFAULT_ACCESS_TOKEN_TYPE}
 
